@@ -211,7 +211,13 @@ Conformance(ll, what, r, fns, e, own) ==
       okT == a = b \/ silent
       okP == r.vt.p = cur.p
       leaves == IF okT THEN {} ELSE Leaves(a, b)
-      own2 == IF Len(fns) = 1 /\ what # "rs" THEN FnBlame(e.pre, fns[1], leaves) ELSE own
+      (* cells with the right characters and marks but the wrong pen are C08's business, whoever wrote them *)
+      penOnly == /\ "buf.lines" \in leaves /\ Len(a.buf.lines) = Len(b.buf.lines)
+                 /\ \A i \in 1..Len(a.buf.lines) :
+                      /\ a.buf.lines[i].w = b.buf.lines[i].w /\ Len(a.buf.lines[i].c) = Len(b.buf.lines[i].c)
+                      /\ \A k \in 1..Len(a.buf.lines[i].c) : a.buf.lines[i].c[k][1] = b.buf.lines[i].c[k][1]
+      own1 == IF Len(fns) = 1 /\ what # "rs" THEN FnBlame(e.pre, fns[1], leaves) ELSE own
+      own2 == IF penOnly /\ what # "rs" THEN own1 \cup {"C08"} ELSE own1
       blame ==    (IF leaves # {} THEN own2 \cup FieldOwners(leaves, cur.t.alt, what = "rs") ELSE {})
               \cup (IF okP THEN {} ELSE {"C03"})
               \cup (IF okSb \/ what = "rs" THEN {} ELSE own2)
